@@ -16,7 +16,12 @@
 #include <string.h>
 #include <sys/epoll.h>
 #include <sys/eventfd.h>
+#include <fcntl.h>
+#include <poll.h>
 #include <sys/mman.h>
+#include <sys/socket.h>
+#include <sys/stat.h>
+#include <sys/uio.h>
 #include <sys/syscall.h>
 #include <sys/timerfd.h>
 #include <time.h>
@@ -64,6 +69,7 @@ typedef struct vthread {
   int confirm_polls;  // idle polls done as the confirmation runner
   int confirmed;
   int in_op;
+  int tol_freed_read8;
   // TSO
   sb_entry_t sb[SB_MAX];
   int sb_n;
@@ -282,6 +288,9 @@ void* vs_alloc_far(size_t n) {
   return arena + start;
 }
 void vs_heap_allow_freed(int on) { shadow_freed_ok = on; }
+void vs_tolerate_freed_read8(int on) {
+  if (ACTIVE && vs.cur) vs.cur->tol_freed_read8 = on;
+}
 
 static void tso_drain_self(void);
 static void* real_sym(const char* name);
@@ -880,6 +889,13 @@ static inline void shadow_check(uintptr_t a, int size, int is_write) {
     uint8_t s = shadow[off >> 3];
     uint8_t s2 = shadow[(off + size - 1) >> 3];
     if ((s != 1 || s2 != 1) && !(shadow_freed_ok && (s == 2 || s == 1) && (s2 == 2 || s2 == 1))) {
+      if (!is_write && size == 8 && s == 2 && s2 == 2 && vs.cur->tol_freed_read8) {
+        vs_res->tolerated_count++;
+        int k = 0;
+        while (k < vs_res->n_tolerated_pc && vs_res->tolerated_pc[k] != (uint64_t)(uintptr_t)vs.last_pc) k++;
+        if (k == vs_res->n_tolerated_pc && k < 8) vs_res->tolerated_pc[vs_res->n_tolerated_pc++] = (uint64_t)(uintptr_t)vs.last_pc;
+        return;
+      }
       vs.in_rt++;
       vs_violation(s == 2 || s2 == 2 ? "use_after_reclaim" : "heap_out_of_bounds", "%s of %d bytes at %p (arena+%zu) by vthread %d at point %llu, pc %p",
                    is_write ? "write" : "read", size, (void*)a, off, vs.cur->id, (unsigned long long)vs.points, vs.last_pc);
@@ -890,6 +906,7 @@ static inline void shadow_check(uintptr_t a, int size, int is_write) {
 static inline void sched_point(uintptr_t a, int size, int is_write) {
   if (!ACTIVE || vs.in_rt) return;
   vthread_t* t = vs.cur;
+  void* const my_pc = vs.last_pc;  // other threads run (and set last_pc) if this point switches away
   if (vs.cfg.tso) tso_capture(t);
   vs.points++;
   t->run_len++;
@@ -908,6 +925,7 @@ static inline void sched_point(uintptr_t a, int size, int is_write) {
   if (vs.points >= vs.next_event) slow_path();
   // the heap check comes last: whatever other threads did while this one was switched out at this very point
   // (e.g. freed the object) is what the access that follows the hook will meet
+  vs.last_pc = my_pc;
   if (size) shadow_check(a, size, is_write);
 }
 
@@ -1499,9 +1517,112 @@ static int trap_nanosleep(const struct timespec* a, struct timespec* b) {
   return 0;
 }
 
+// ---------------------------------------------------------------------------
+// The real I/O calls libfiber looks up with dlsym(RTLD_NEXT, ...): a call that reaches the kernel on a pipe or socket that is
+// in blocking mode *in the kernel* and cannot complete at once would put the kernel thread to sleep - every fiber on it, not
+// just the caller.  With one OS thread under the virtual threads nobody could ever wake it, so the engine decides the
+// outcome before making the call: reads/accepts by polling, writes by making the call non-blocking and looking for a short
+// count (a blocking write only returns once everything is written).
+static int kernel_blocking_stream(int fd) {
+  long fl = syscall(SYS_fcntl, fd, F_GETFL);
+  if (fl < 0 || (fl & O_NONBLOCK)) return 0;
+  struct stat st;
+  if (syscall(SYS_fstat, fd, &st) != 0) return 0;
+  return S_ISFIFO(st.st_mode) || S_ISSOCK(st.st_mode);
+}
+static void would_block(const char* call, int fd) __attribute__((noreturn));
+static void would_block(const char* call, int fd) {
+  vs_violation("kernel_thread_blocked",
+               "%s(fd %d) reached the kernel with the descriptor in blocking mode (O_NONBLOCK clear in the kernel) and the call cannot complete at once: "
+               "the kernel thread sleeps in the call, with every fiber on it, instead of just the calling fiber",
+               call, fd);
+}
+static void guard_in(const char* call, int fd, int dontwait) {
+  if (!ACTIVE || dontwait || !kernel_blocking_stream(fd)) return;
+  struct pollfd p = {fd, POLLIN, 0};
+  if (syscall(SYS_poll, &p, 1, 0) == 0) would_block(call, fd);
+}
+// returns 1 when the write must be made in temporarily-non-blocking mode (caller checks for a short count)
+static int guard_out_begin(int fd, int dontwait) {
+  if (!ACTIVE || dontwait || !kernel_blocking_stream(fd)) return 0;
+  long fl = syscall(SYS_fcntl, fd, F_GETFL);
+  syscall(SYS_fcntl, fd, F_SETFL, fl | O_NONBLOCK);
+  return 1;
+}
+static void guard_out_end(const char* call, int fd, ssize_t r, size_t want) {
+  long fl = syscall(SYS_fcntl, fd, F_GETFL);
+  if (fl >= 0) syscall(SYS_fcntl, fd, F_SETFL, fl & ~O_NONBLOCK);
+  if ((r < 0 && (errno == EAGAIN || errno == EWOULDBLOCK)) || (r >= 0 && (size_t)r < want)) would_block(call, fd);
+}
+static size_t iov_total(const struct iovec* v, int n) {
+  size_t t = 0;
+  for (int i = 0; i < n; i++) t += v[i].iov_len;
+  return t;
+}
+static ssize_t g_read(int fd, void* b, size_t n) {
+  guard_in("read", fd, 0);
+  return syscall(SYS_read, fd, b, n);
+}
+static ssize_t g_readv(int fd, const struct iovec* v, int n) {
+  guard_in("readv", fd, 0);
+  return syscall(SYS_readv, fd, v, n);
+}
+static ssize_t g_recv(int fd, void* b, size_t n, int fl) {
+  guard_in("recv", fd, fl & MSG_DONTWAIT);
+  return syscall(SYS_recvfrom, fd, b, n, fl, 0, 0);
+}
+static ssize_t g_recvfrom(int fd, void* b, size_t n, int fl, struct sockaddr* a, socklen_t* al) {
+  guard_in("recvfrom", fd, fl & MSG_DONTWAIT);
+  return syscall(SYS_recvfrom, fd, b, n, fl, a, al);
+}
+static ssize_t g_recvmsg(int fd, struct msghdr* m, int fl) {
+  guard_in("recvmsg", fd, fl & MSG_DONTWAIT);
+  return syscall(SYS_recvmsg, fd, m, fl);
+}
+static int g_accept(int fd, struct sockaddr* a, socklen_t* al) {
+  guard_in("accept", fd, 0);
+  return (int)syscall(SYS_accept, fd, a, al);
+}
+static ssize_t g_write(int fd, const void* b, size_t n) {
+  int g = guard_out_begin(fd, 0);
+  ssize_t r = syscall(SYS_write, fd, b, n);
+  if (g) guard_out_end("write", fd, r, n);
+  return r;
+}
+static ssize_t g_writev(int fd, const struct iovec* v, int n) {
+  int g = guard_out_begin(fd, 0);
+  ssize_t r = syscall(SYS_writev, fd, v, n);
+  if (g) guard_out_end("writev", fd, r, iov_total(v, n));
+  return r;
+}
+static ssize_t g_send(int fd, const void* b, size_t n, int fl) {
+  int g = guard_out_begin(fd, fl & MSG_DONTWAIT);
+  ssize_t r = syscall(SYS_sendto, fd, b, n, fl, 0, 0);
+  if (g) guard_out_end("send", fd, r, n);
+  return r;
+}
+static ssize_t g_sendto(int fd, const void* b, size_t n, int fl, const struct sockaddr* a, socklen_t al) {
+  int g = guard_out_begin(fd, fl & MSG_DONTWAIT);
+  ssize_t r = syscall(SYS_sendto, fd, b, n, fl, a, al);
+  if (g) guard_out_end("sendto", fd, r, n);
+  return r;
+}
+static ssize_t g_sendmsg(int fd, const struct msghdr* m, int fl) {
+  int g = guard_out_begin(fd, fl & MSG_DONTWAIT);
+  ssize_t r = syscall(SYS_sendmsg, fd, m, fl);
+  if (g) guard_out_end("sendmsg", fd, r, iov_total(m->msg_iov, (int)m->msg_iovlen));
+  return r;
+}
+
 void* dlsym(void* handle, const char* name) {
   init_real_dlsym();
   if (handle == RTLD_NEXT || handle == RTLD_DEFAULT) {
+    static const struct { const char* n; void* f; } io[] = {
+        {"read", (void*)g_read}, {"readv", (void*)g_readv}, {"recv", (void*)g_recv}, {"recvfrom", (void*)g_recvfrom}, {"recvmsg", (void*)g_recvmsg},
+        {"accept", (void*)g_accept}, {"write", (void*)g_write}, {"writev", (void*)g_writev}, {"send", (void*)g_send}, {"sendto", (void*)g_sendto},
+        {"sendmsg", (void*)g_sendmsg}};
+    for (unsigned i = 0; i < sizeof io / sizeof io[0]; i++)
+      if (!strcmp(name, io[i].n)) return io[i].f;
     if (!strcmp(name, "usleep")) return (void*)trap_usleep;
     if (!strcmp(name, "sleep")) return (void*)trap_sleep;
     if (!strcmp(name, "nanosleep")) return (void*)trap_nanosleep;
